@@ -115,6 +115,47 @@ CHECKS.update({
         note='byte-level encoding is C12; Horace compatibility and float formatting not decided', ref='3 C13'),
 })
 
+
+# ---- entries rewritten after the twin (behaviour-preserving refactoring) campaign: no statement patterns ----
+CHECKS.update({
+    'C10': dict(
+        level='other', technique='abstract interpretation of the DiskChopper methods on both rotation senses; witness-guided symbolic interpretation (sa/witness.py) of validation, repetition count and pulse expansion over order types',
+        text='Static: the time offset of an angle is (beam_position+phase-theta_rep)/omega (+ one period iff anticlockwise) in float64 without integer unit conversion; open/close use complementary edges by rotation sense and close-open = (end-begin)/|omega|; over every order type of the edges of one and two slits on a grid of angles _check_edges accepts exactly the non-reversed, non-overlapping slit sets (also across top-dead-centre) and construction runs it; frequency ratios are accepted iff integer or inverse integer to 1e-8; the open/close arrays hold exactly one pair per slit and turn for turns -1..n-1 as exact terms; from_disk_chopper shifts every pair by k/f_pulse.',
+        note='that delta_t(theta) describes the physical disk is the documented convention, not derived', ref='8'),
+    'C11': dict(
+        level='other', technique='witness-guided symbolic interpretation: vertices, windows and distances are symbols with exact rational witness values, comparisons are decided at the witness, reported vertices stay exact terms and are compared with a reference model written from the definition (spec/clip.py); floating-point exactness tags for the interpolation',
+        text='Static: the shear t+d*lambda*m_n/h and its composition law; _chop equals polygon-intersect-half-plane for every order type of 3- and 4-vertex polygons against the cut (both directions; exact terms for generic order types, numerically on the cut); Frame.chop refuses a chopper in front of the frame and otherwise reports exactly the polygons of the reference model for every subframe x window in any window order; FrameSequence.chop is independent of the listing order and __getitem__ propagates the last frame not beyond the distance (also with co-located choppers); the wavelength of an intersection is bit-exactly the endpoint value when both endpoints carry the same wavelength; produced subframes are regular.',
+        note='rounding of the interpolation for unequal endpoints is not decided; the reference model is trusted', ref='8'),
+    'C12': dict(
+        level='other', technique='abstract interpretation of the whole SQW builder over an abstract byte file (sa/absio.py: concrete bytes for integers and text, symbolic cells with width and byte order for floats) for a finite set of configurations; independent decoder of the documented layout (spec/sqwfmt.py); the package reader interpreted on the same file',
+        text='Static, finite configuration space enumerated (orders and subsets of builder calls, both byte orders, pixel counts and chunk sizes below/equal/above each other and the row count, 1..3 runs, in memory and through open(), titles from empty to 300 non-ASCII characters): header horace/4.0/SQW/n_dims and byte order found == requested (also by Sqw.open); block table size field right, every block once, order independent of the builder calls, extents contiguous from the table end to EOF; every extent holds a block of the declared type that decodes completely and exactly within it, by the independent decoder and by the package reader.',
+        note='numpy tofile/tobytes/frombuffer/fromfile, struct and io are modelled (sa/sqwio.py); found and fixed F12 (string lengths declared in characters)', ref='8'),
+    'C13': dict(
+        level='other', technique='abstract round trip through the IR (symbolic model -> serializer -> registered parser) and through the abstract byte file (builder -> bytes -> independent decoder / package reader); the term domain tracks the unit bare numbers are expressed in',
+        text='Static: unit-carrying metadata fields come back with the physical value supplied (writer unit == reader label), 1-based indices are undone, integer metadata is converted in float64; for pixel counts / chunk sizes below, equal and above each other and the row count, pixel p row r on disk is float32(row r of pixel p converted to the declared unit) as an exact term, metadata holds N and per-row (min, max); containers hold one shared object referenced once per run (1-based); run ids + 1, meV, rad, angstrom/deg and the declared histogram units and shape on disk; Sqw.read_data_block returns models equal to those supplied with units of the same dimension.',
+        note='Horace compatibility and float formatting not decided', ref='8'),
+    'C15': dict(
+        level='other', technique='finite-domain interpretation of io/xye.py with recording stubs for numpy.savetxt/loadtxt over every combination of (variances, ndim, masks, coordinate set and alignment, bin edges, coord argument, header argument); symbolic table columns',
+        text='Static: every documented refusal raises before anything is handed to savetxt or written and every accepted input is saved by exactly one savetxt call; the table saved has the columns (selected coordinate values, data values, sqrt(variances)) as exact terms; >=17 significant digits, one-character delimiter the loader splits on, comments untouched, header through savetxt; the coordinate selected is the documented one irrespective of alignment flags; load_xye returns column 1, column 2 squared, column 0 and one-row files load as 1-d columns.',
+        note='round-trip of %.18e through numpy/C is trusted', ref='8'),
+    'C17': dict(
+        level='other', technique='witness-guided interpretation of peaks/_fit_peaks.py and _remove_peaks.py with recording stubs for the optimiser, the chi-square distribution and the fit models',
+        text='Static: with fewer points than parameters a window-too-narrow result is returned without consuming the data and a failing optimiser gives a failed result; over all combinations of violated requirements (on a non-uniform grid) _assess_fit returns success iff none is violated, otherwise names a violated one, never raising; fit_peaks returns one result per window in order fitted on the data inside the window and _fit_peak returns the first success in product order else the first candidate for all 16 patterns; the statistics are chi2/(n-k), 1-cdf, n ln(chi2/n)+2k as exact terms of the window data and the model at the returned parameters; automatic windows are clipped to the data range and the neighbour separation; remove_peaks subtracts exactly the successful peaks inside their windows from a copy.',
+        note='optimiser outcomes are not decided', ref='8'),
+    'C18': dict(
+        level='other', technique='abstract interpretation (rotation vector, geometry kernels, transmission fraction); witness-guided interpretation with recording stubs (scaling/rotation/translation of a symbolic rule, transmission map); constant folding of the reference rules with numpy; effect summaries incl. memoising wrappers',
+        text='Static: the rotation from the z axis to the cylinder axis uses an angle ranging over [0, pi]; literal disk rules and the folded product rules of every deterministic kind have positive weights summing to the unit-cylinder volume, nodes inside, exact low-degree moments, and are the same on a second request; points = R (x r, y r, z h/2) + centre and weights = w r^2 h/2 as exact terms; transmission = sum w exp(-mu (L_in+L_out))/volume with L_in along -beam from every point and L_out along the unit vector to the detector; beam_intersection is the composition of the interval/slab/cylinder formulas, which equal their reference normal forms; no module-level state is written.',
+        note='accuracy of the quadrature on the integrand and degenerate (tangent/parallel) rays are runtime numerics, not decided', ref='8'),
+    'C19': dict(
+        level='other', technique='abstract interpretation of the plateau and in-phase code with symbolic tokens for group/bins reductions and a record of coordinate stores; effect summaries',
+        text='Static: slope term and dtype discipline; the grouping coordinate is concat(0, cumsum(|slope| > atol in slope units)) as an exact term; the groups kept are those with size >= min_n_points; collapse = [bins.min, next representable above bins.max] for float, integer and datetime event coordinates with bins.mean data; in-phase predicate and filter; no argument written.',
+        note='maximality/completeness of runs are runtime sequence properties and not decided', ref='8'),
+    'C20': dict(
+        level='other', technique='partial evaluation of the three table loaders and Atom.for_isotope on the bundled CSV files (read as data by an independent csv reader); finite-domain evaluation of the name parser; abstract interpretation of _assemble_scalar and the attenuation formula',
+        text='Static: every key of the tables is found and returned verbatim (value, variance = uncertainty^2, blank -> None, units fm x4 / barn x4 / Da); names that are not exactly a key (case, blanks, prefixes, header words) are refused; the element of an isotope name is the letter run after optional digits over all strings up to length 4 (thorough 5) of a class alphabet; z/weight/mass wiring of Atom.for_isotope; tables have constant width, unique keys, numeric-or-blank cells; attenuation = n*(sigma_s + sigma_a*lambda/1.7982 A) without integer truncation.  Quick samples the mass table (every 37th key plus neighbours), thorough evaluates all 4046 rows.',
+        note='float(text) == tabulated decimal is Python and not decided', ref='8'),
+})
+
 NA_REASON = 'check not built yet (planned: see DESIGN.md section 3)'
 
 
